@@ -42,6 +42,9 @@ type tcase struct {
 	ID       int   `json:"id"`
 	FileSize int64 `json:"file_size"`
 	Ops      []op  `json:"ops"`
+	// Telem, when present, makes the case a function-level differential test of
+	// telem.TimeRange: each entry is [tr.Start, tr.End, rng.Start, rng.End].
+	Telem [][]int64 `json:"telem,omitempty"`
 }
 
 type step struct {
@@ -61,6 +64,33 @@ type result struct {
 	Cap     int64  `json:"cap"`
 	Steps   []step `json:"steps"`
 	Fatal   string `json:"fatal,omitempty"`
+	// per Telem entry: [OverlapsWith, ContainsRange, BoundBy.Start, BoundBy.End,
+	// ContainsStamp(rng.Start), Valid, MakeValid.Start, MakeValid.End] (bools as 0/1)
+	Telem [][]int64 `json:"telem,omitempty"`
+}
+
+func b2i(b bool) int64 {
+	if b {
+		return 1
+	}
+	return 0
+}
+
+func runTelem(c tcase) (res result) {
+	res.ID = c.ID
+	res.Steps = []step{}
+	res.Telem = make([][]int64, 0, len(c.Telem))
+	for _, q := range c.Telem {
+		tr := telem.TimeRange{Start: telem.TimeStamp(q[0]), End: telem.TimeStamp(q[1])}
+		rng := telem.TimeRange{Start: telem.TimeStamp(q[2]), End: telem.TimeStamp(q[3])}
+		bb := tr.BoundBy(rng)
+		mv := tr.MakeValid()
+		res.Telem = append(res.Telem, []int64{
+			b2i(tr.OverlapsWith(rng)), b2i(tr.ContainsRange(rng)), int64(bb.Start), int64(bb.End),
+			b2i(tr.ContainsStamp(rng.Start)), b2i(tr.Valid()), int64(mv.Start), int64(mv.End),
+		})
+	}
+	return res
 }
 
 func classify(err error) string {
@@ -143,6 +173,9 @@ func observe(ctx context.Context, db *domain.DB, fs xfs.FS, st *step) error {
 }
 
 func runCase(c tcase) (res result) {
+	if c.Telem != nil {
+		return runTelem(c)
+	}
 	res.ID = c.ID
 	res.Steps = []step{}
 	ctx := context.Background()
